@@ -1,1 +1,309 @@
-/-! C11 — property theorems (stub; no obligations yet) -/
+import Ypv.Lemmas.MergeAt
+/-!
+# C11 — a merge aimed at a path changes only what lies under that path
+
+Theorems about `Ypv.MergeAt.mergeAt` (`Model/MergeAt.lean`: `Merger.merge_with` with `--mergeat`,
+as the code stands after fixes C11-1 … C11-3), for every configuration, left document, right
+document and query outcome (`Plan`).  `Apart t b`: neither address lies under the other.
+-/
+namespace Ypv.MergeAt
+open Ypv Ypv.Merge
+
+/-- FRAME.  A merge aimed at existing targets leaves every address that is apart from all of them
+exactly as it was — the same node, or still nothing.  No hypothesis on the targets (any order,
+repeats, nesting). -/
+theorem mergeat_frame (cfg : Config) (l r d' : Node) (targets : List Addr)
+    (h : mergeAt cfg l (.existing targets) r = .ok d') :
+    ∀ b, (∀ t ∈ targets, Apart t b) → d'.get? b = l.get? b := by
+  intro b hb
+  unfold mergeAt at h
+  cases hr : isNull r with
+  | true => simp only [hr, if_true] at h; cases h; rfl
+  | false =>
+    simp only [hr, Bool.false_eq_true, if_false] at h
+    cases hl : isNull l with
+    | true => simp [hl] at h
+    | false =>
+      simp only [hl, Bool.false_eq_true, if_false] at h
+      cases he : targets.isEmpty with
+      | true => simp [he] at h
+      | false =>
+        simp only [he, Bool.false_eq_true, if_false] at h
+        exact mergeTargets_frame _ r targets l d' h b hb
+
+/-- FRAME for a straight-line merge path (followed, and created where missing): every node of the
+left document at an address apart from the relayed one is still there, unchanged (padding elements
+and the new key are additions, not changes). -/
+theorem mergeat_frame_created (cfg : Config) (l r d' : Node) (segs : List PSeg)
+    (hl : isNull l = false) (hr : isNull r = false)
+    (h : mergeAt cfg l (.create segs) r = .ok d') :
+    ∃ leaf c, wrapLeaf r = .ok leaf ∧ createPathN leaf l segs = .ok c ∧
+      ∀ b x, l.get? b = some x → Apart c.addr b → d'.get? b = some x := by
+  unfold mergeAt at h
+  simp only [hr, hl, Bool.false_eq_true, if_false] at h
+  unfold mergeCreate at h
+  cases hw : wrapLeaf r with
+  | error e => simp [hw] at h
+  | ok leaf =>
+    simp only [hw] at h
+    cases hc : createPathN leaf l segs with
+    | error e => simp [hc] at h
+    | ok c =>
+      simp only [hc] at h
+      refine ⟨leaf, c, rfl, hc, ?_⟩
+      intro b x hb hap
+      have hcf := createPathN_frame leaf segs l c hc b x hb hap
+      split at h
+      · cases h; exact hcf
+      · obtain ⟨_, old, m, _, _, hd'⟩ := mergeOne_ok h
+        rw [hd', get?_setAt_apart m c.addr c.doc b hap]
+        exact hcf
+
+/-- TARGETS.  With the matched addresses pairwise apart (what a wildcard / search over siblings
+yields), every target ends up holding what the per-target dispatch of `merge_with` makes of the node
+that stood there in the LEFT document and the right-hand document. -/
+theorem mergeat_targets_merged (cfg : Config) (l r d' : Node) (targets : List Addr)
+    (hp : targets.Pairwise Apart) (hr : isNull r = false)
+    (h : mergeAt cfg l (.existing targets) r = .ok d') :
+    ∀ t ∈ targets, ∃ old m, l.get? t = some old ∧
+      mergeTarget (prepare cfg r) t.isEmpty old r = .ok m ∧ d'.get? t = some m := by
+  unfold mergeAt at h
+  simp only [hr, Bool.false_eq_true, if_false] at h
+  cases hl : isNull l with
+  | true => simp [hl] at h
+  | false =>
+    simp only [hl, Bool.false_eq_true, if_false] at h
+    cases he : targets.isEmpty with
+    | true => simp [he] at h
+    | false =>
+      simp only [he, Bool.false_eq_true, if_false] at h
+      exact mergeTargets_merged _ r targets l d' hp h
+
+/-- The per-target dispatch IS the policy-defined (C05) merge of the target's old content with the
+right-hand document.  PARTIAL: outside the input class of the known finding `scalar-rhs-retyped`
+(`Retyped`: a Scalar target below the root is overwritten through `set_value`, which stores the text
+`"5"` as the integer 5).
+FULL STATEMENT (false on the pinned and on the fixed tree, witness below):
+`mergeTarget (prepare cfg r) isRoot l r = c05 cfg l r` for all non-null `l`, `r`. -/
+theorem mergeat_target_is_c05_merge_partial (cfg : Config) (isRoot : Bool) (l r : Node)
+    (hl : isNull l = false) (hr : isNull r = false) (hs : Retyped isRoot l r = false) :
+    mergeTarget (prepare cfg r) isRoot l r = c05 cfg l r :=
+  mergeTarget_eq_c05 cfg isRoot l r hl hr hs
+
+/-- C11 for existing targets, in one statement: targets pairwise apart, none of them null or in
+the finding class ⇒ the result meets `Meets` (every target holds the C05 merge of its old content,
+everything apart from the targets is as it was).  PARTIAL in the same sense as
+`mergeat_target_is_c05_merge_partial`. -/
+theorem mergeat_meets_spec_partial (cfg : Config) (l r d' : Node) (targets : List Addr)
+    (hp : targets.Pairwise Apart) (hr : isNull r = false)
+    (hn : ∀ t ∈ targets, ∀ old, l.get? t = some old →
+      isNull old = false ∧ Retyped t.isEmpty old r = false)
+    (h : mergeAt cfg l (.existing targets) r = .ok d') :
+    Meets cfg l targets r d' := by
+  refine ⟨?_, mergeat_frame cfg l r d' targets h⟩
+  intro t ht
+  obtain ⟨old, m, hold, hm, hres⟩ := mergeat_targets_merged cfg l r d' targets hp hr h t ht
+  obtain ⟨hno, hre⟩ := hn t ht old hold
+  exact ⟨old, m, hold, by rw [← mergeTarget_eq_c05 cfg _ old r hno hr hre]; exact hm, hres⟩
+
+/-- MISSING PATH CREATED.  When the straight-line merge path does not exist yet (`fresh`) and the
+right-hand document is a container, the merge succeeds, the node at the relayed address IS the
+right-hand document, and every node of the left document apart from that address is unchanged.
+`start` is the left document, or for an empty (null) left document the empty container
+`build_next_node` makes for the first segment (fix C11-2). -/
+theorem mergeat_missing_created (cfg : Config) (l r : Node) (segs : List PSeg) (c : CreatedN)
+    (hr : isNull r = false) (hs : r.isScalar = false)
+    (hne : isNull l = true → segs ≠ [])
+    (hc : createPathN r (if isNull l then buildNextN segs r else l) segs = .ok c)
+    (hf : c.fresh = true) :
+    mergeAt cfg l (.create segs) r = .ok c.doc ∧ c.doc.get? c.addr = some r ∧
+      ∀ b x, (if isNull l then buildNextN segs r else l).get? b = some x → Apart c.addr b →
+        c.doc.get? b = some x := by
+  have hw : wrapLeaf r = .ok r := by
+    cases r with
+    | scalar a v => simp [Node.isScalar] at hs
+    | seq a i => rfl
+    | map a e => rfl
+    | set a m => rfl
+  refine ⟨?_, createPathN_fresh_holds r segs _ c hc hf, createPathN_frame r segs _ c hc⟩
+  unfold mergeAt
+  simp only [hr, Bool.false_eq_true, if_false]
+  cases hl : isNull l with
+  | true =>
+    have hse : segs.isEmpty = false := by
+      cases segs with
+      | nil => exact absurd rfl (hne hl)
+      | cons s t => rfl
+    simp only [hl, if_true] at hc ⊢
+    simp only [hw, hse, Bool.false_and, Bool.false_eq_true, if_false]
+    unfold mergeCreate
+    simp [hw, hc, hf, hs]
+  | false =>
+    simp only [hl, Bool.false_eq_true, if_false] at hc ⊢
+    unfold mergeCreate
+    simp [hw, hc, hf, hs]
+
+/-- An existing straight-line path is an ordinary single target: the optional query changes
+nothing and the merge is the one aimed at the relayed address. -/
+theorem mergeat_existing_path_is_target (cfg : Config) (l r leaf : Node) (segs : List PSeg) (c : CreatedN)
+    (hl : isNull l = false) (hw : wrapLeaf r = .ok leaf)
+    (hc : createPathN leaf l segs = .ok c) (hf : c.fresh = false) :
+    mergeAt cfg l (.create segs) r = mergeAt cfg l (.existing [c.addr]) r := by
+  obtain ⟨hd, _⟩ := createPathN_not_fresh leaf segs l c hc hf
+  unfold mergeAt
+  cases hr : isNull r with
+  | true => simp
+  | false =>
+    simp only [Bool.false_eq_true, if_false, hl]
+    unfold mergeCreate
+    simp only [hw, hc, hf, Bool.false_and, Bool.false_eq_true, if_false, hd, List.isEmpty_cons,
+      mergeTargets]
+    cases mergeOne (prepare cfg r) r l c.addr <;> rfl
+
+/-- UNMATCHED.  A merge path that matches nothing and is not creatable (the optional query yields
+no node) is a merge error — no document comes out, so nothing can be written. -/
+theorem mergeat_unmatched_is_error (cfg : Config) (l r : Node)
+    (hl : isNull l = false) (hr : isNull r = false) :
+    mergeAt cfg l (.existing []) r = .error .merge := by
+  unfold mergeAt
+  simp [hl, hr]
+
+/-- NOT CREATABLE.  When the straight-line path cannot be followed or created (a key below a
+Scalar, a key in an Array, …) the merge fails with exactly the optional query's error — again no
+document comes out. -/
+theorem mergeat_uncreatable_is_error (cfg : Config) (l r leaf : Node) (segs : List PSeg) (e : Err)
+    (hl : isNull l = false) (hr : isNull r = false) (hw : wrapLeaf r = .ok leaf)
+    (hc : createPathN leaf l segs = .error e) :
+    mergeAt cfg l (.create segs) r = .error (ofE e) := by
+  unfold mergeAt
+  simp only [hl, hr, Bool.false_eq_true, if_false]
+  unfold mergeCreate
+  simp [hw, hc]
+
+/-- An empty right-hand document changes nothing, whatever the merge path. -/
+theorem mergeat_null_rhs (cfg : Config) (l r : Node) (plan : Plan) (hr : isNull r = true) :
+    mergeAt cfg l plan r = .ok l := by
+  unfold mergeAt; simp [hr]
+
+/-- SPINE.  Every position that lies under no target keeps its shape: the containers above a
+target keep their kind, anchor and key list (order included) / length — a merge aimed below them
+adds, removes and reorders nothing at their level. -/
+theorem mergeat_spine_kept (cfg : Config) (l r d' : Node) (targets : List Addr)
+    (h : mergeAt cfg l (.existing targets) r = .ok d') :
+    ∀ p, (∀ t ∈ targets, ¬ t <+: p) → (d'.get? p).map shape = (l.get? p).map shape := by
+  intro p hp
+  unfold mergeAt at h
+  cases hr : isNull r with
+  | true => simp only [hr, if_true] at h; cases h; rfl
+  | false =>
+    simp only [hr, Bool.false_eq_true, if_false] at h
+    cases hl : isNull l with
+    | true => simp [hl] at h
+    | false =>
+      simp only [hl, Bool.false_eq_true, if_false] at h
+      cases he : targets.isEmpty with
+      | true => simp [he] at h
+      | false =>
+        simp only [he, Bool.false_eq_true, if_false] at h
+        exact mergeTargets_shape _ r targets l d' h p hp
+
+/-- MISSING PATH CREATED, Scalar right-hand document: the node at the relayed address is the
+Scalar as `set_value` stores it (`newScalar … DEFAULT`: the finding class `scalar-rhs-retyped`
+re-types text here too), every pre-existing node apart from that address is unchanged. -/
+theorem mergeat_missing_created_scalar (cfg : Config) (l d' : Node) (ra : Option Str) (v : Scalar)
+    (segs : List PSeg) (leaf : Node) (c : CreatedN)
+    (hl : isNull l = false) (hr : isNull (.scalar ra v) = false)
+    (hw : wrapLeaf (.scalar ra v) = .ok leaf) (hc : createPathN leaf l segs = .ok c)
+    (hf : c.fresh = true)
+    (h : mergeAt cfg l (.create segs) (.scalar ra v) = .ok d') :
+    ∃ la s, newScalar la.isSome v .default = .ok s ∧ d'.get? c.addr = some (.scalar la s) := by
+  unfold mergeAt at h
+  simp only [hr, hl, Bool.false_eq_true, if_false] at h
+  unfold mergeCreate at h
+  simp only [hw, hc, hf, Node.isScalar, Bool.not_true, Bool.and_false, Bool.false_eq_true, if_false] at h
+  obtain ⟨hm, old, m, hold, hmt, hd'⟩ := mergeOne_ok h
+  have hleaf := createPathN_fresh_holds leaf segs l c hc hf
+  rw [hleaf] at hold
+  cases hold
+  have hne := createPathN_fresh_addr_ne_nil leaf segs l c hc hf
+  have hemp : c.addr.isEmpty = false := by
+    cases hca : c.addr with
+    | nil => exact absurd hca hne
+    | cons x y => rfl
+  have hleafs : ∃ la lv, leaf = Node.scalar la lv := by
+    simp only [wrapLeaf] at hw
+    cases hwt : wrapType v with
+    | error e => simp [hwt, Except.map] at hw
+    | ok v' => simp only [hwt, Except.map] at hw; cases hw; exact ⟨ra, v', rfl⟩
+  obtain ⟨la, lv, hleq⟩ := hleafs
+  subst hleq
+  simp only [mergeTarget, hemp, Bool.false_eq_true, if_false, setScalar] at hmt
+  cases hns : newScalar la.isSome v .default with
+  | error e => simp [hns] at hmt
+  | ok s =>
+    simp only [hns] at hmt
+    cases hmt
+    exact ⟨la, s, hns, by rw [hd']; exact get?_setAt_self _ c.addr c.doc _ hm hleaf⟩
+
+/-- REUSE OF THE C09 CREATION MODEL.  On a Scalar leaf the path creation used here is
+`Node.createPath` of `Model/Edit.lean` — the function the C09 theorems (`create_exact_partial_seq`,
+`create_exact_partial_map`, `fill_resolves`, `create_nothing_when_present`) are about. -/
+theorem mergeat_creation_is_c09 (s : Scalar) (segs : List PSeg) (n : Node) :
+    (createPathN (.scalar none s) n segs).map CreatedN.toCreated = n.createPath s segs :=
+  createPathN_scalar s segs n
+
+/-- RULES RE-BASED.  A `[rules]` / `[keys]` path written against the merged document below the
+merge path (`mergePath ++ p`, plain key names) addresses the node `p` of the right-hand document. -/
+theorem mergeat_rules_rebased {α : Type} (m p : List Str) (x : α) (hm : m ≠ [])
+    (hp : ∀ k ∈ p, k ≠ [] ∧ '/' ∉ k) :
+    rebaseRules m [(m ++ p, x)] = [(keysToAddr p, x)] := by
+  simp [rebaseRules, stripPrefix_append m p hm hp]
+
+/-! ## Witnesses -/
+
+private def i (n : Int) : Node := .scalar none (.int n)
+private def docAB : Node := .map none [(.str "a".toList, .map none [(.str "b".toList, .seq none [i 1, i 2])])]
+private def pathAB : List PSeg := [.key "a".toList, .key "b".toList]
+
+/-- The section-6 witness, repaired by fix C11-1: `a: {b: [1,2]}` ⊕ `[3]` at `a.b` with
+arrays=right gives `a: {b: [3]}` (the pinned code leaves the document unchanged). -/
+example : mergeAt { arrayCli := some .right } docAB (.create pathAB) (.seq none [i 3]) =
+    .ok (.map none [(.str "a".toList, .map none [(.str "b".toList, .seq none [i 3])])]) := by decide +kernel
+
+/-- Two targets under a wildcard (`a.*`), hashes=right: both are replaced. -/
+example : mergeAt { hashCli := some .right }
+    (.map none [(.str "a".toList, .seq none [.map none [(.str "k".toList, i 1)], .map none [(.str "k".toList, i 2)]])])
+    (.existing [[.key (.str "a".toList), .idx 0], [.key (.str "a".toList), .idx 1]])
+    (.map none [(.str "x".toList, i 1)]) =
+    .ok (.map none [(.str "a".toList, .seq none [.map none [(.str "x".toList, i 1)], .map none [(.str "x".toList, i 1)]])]) := by
+  decide +kernel
+
+/-- A missing path is created to hold the right-hand document; an empty left document too (C11-2). -/
+example : mergeAt {} (.map none [(.str "a".toList, i 1)]) (.create [.key "b".toList, .key "c".toList])
+    (.map none [(.str "x".toList, i 1)]) =
+    .ok (.map none [(.str "a".toList, i 1),
+      (.str "b".toList, .map none [(.str "c".toList, .map none [(.str "x".toList, i 1)])])]) := by decide +kernel
+example : mergeAt {} (.scalar none .null) (.create pathAB) (.map none [(.str "x".toList, i 1)]) =
+    .ok (.map none [(.str "a".toList, .map none [(.str "b".toList, .map none [(.str "x".toList, i 1)])])]) := by
+  decide +kernel
+
+/-- Not creatable: a key below a Scalar. -/
+example : mergeAt {} (.map none [(.str "a".toList, i 1)]) (.create [.key "a".toList, .key "c".toList])
+    (.map none [(.str "x".toList, i 1)]) = .error (.ypath .generic) := by decide +kernel
+
+/-- The known finding `scalar-rhs-retyped` (why `mergeat_target_is_c05_merge_partial` is partial):
+`{a: 1}` ⊕ `"5"` at `a` stores the integer 5, the C05 merge of `1` and `"5"` is the text. -/
+example : mergeAt {} (.map none [(.str "a".toList, i 1)]) (.create [.key "a".toList]) (.scalar none (.str "5".toList)) =
+    .ok (.map none [(.str "a".toList, i 5)]) := by decide +kernel
+example : c05 {} (i 1) (.scalar none (.str "5".toList)) = .ok (.scalar none (.str "5".toList)) := by decide +kernel
+example : Retyped false (i 1) (.scalar none (.str "5".toList)) = true := by decide +kernel
+
+/-- `strip_path_prefix` compares texts: a rule for `/a/bc/x` is (wrongly) re-based on the merge path
+`/a/b` to the single key `c/x` (mirrored; observation in `notes/C11.md`). -/
+example : stripPrefix ["a".toList, "bc".toList, "x".toList] ["a".toList, "b".toList] = ["c/x".toList] := by
+  decide +kernel
+
+/-- The hypotheses of `mergeat_meets_spec_partial` are met by a non-trivial case. -/
+example : Retyped false (.seq none [i 1]) (.seq none [i 3]) = false := by decide +kernel
+
+end Ypv.MergeAt
